@@ -301,6 +301,21 @@ fn relay(s: &str) -> RelayUrl {
     RelayUrl::parse(s).unwrap()
 }
 
+/// Mirror of mdk-core's (crate-private) TLS layout of the group-data extension, for adversarial commits.
+#[derive(tls_codec::TlsSerialize, tls_codec::TlsSize)]
+struct RawGroupData {
+    version: u16,
+    nostr_group_id: [u8; 32],
+    name: Vec<u8>,
+    description: Vec<u8>,
+    admin_pubkeys: Vec<[u8; 32]>,
+    relays: Vec<Vec<u8>>,
+    image_hash: Vec<u8>,
+    image_key: Vec<u8>,
+    image_nonce: Vec<u8>,
+    image_upload_key: Vec<u8>,
+}
+
 pub fn id_rank(id: &EventId) -> u64 {
     let b = id.as_bytes();
     ((b[0] as u64) << 16) | ((b[1] as u64) << 8) | (b[2] as u64)
@@ -733,6 +748,153 @@ impl World {
         self.events.get_mut(&name).unwrap().jclass = class.to_string();
         let blog = if class == "bitflip" || class == "truncated" { base_name } else { "" };
         json!({"op":"Junk","c":c,"g":g,"class":class,"res":"Ok","e":name,"tag":tagname,"base":blog,"parent":chain_json(&parent),"ts":ts,"rank":rank,"now":0})
+    }
+
+
+    // ------------------------------------------------------------------------------------------------
+    // Adversarial member (C04 / C05): a real member that bypasses mdk's sender-side checks.
+
+    /// A member encrypts a rumor with an arbitrary `pubkey` field (claimed author) and an optionally pre-set id
+    /// through the public create_message. idclass: "none" | "random" | "other:<message name>".
+    pub fn op_forge(&mut self, c: &str, g: &str, claimed: &str, idclass: &str, ts: u64, rumor_ts: u64) -> Value {
+        let gid = self.gid(g);
+        let parent = self.chain_of(c, g, None);
+        self.set_override(ts, 0);
+        let claimed_pk = self.clients[claimed].pk();
+        let fresh = format!("m{}", self.msgs.len() + 1);
+        let content = format!("forged-{fresh}");
+        let mut rumor = EventBuilder::new(Kind::Custom(9), content.clone())
+            .custom_created_at(nostr::Timestamp::from_secs(self.real_ts(rumor_ts)))
+            .build(claimed_pk);
+        let true_id = { let mut r2 = rumor.clone(); r2.id = None; r2.id() };
+        let mut preset_name = String::new();
+        match idclass {
+            "none" => { rumor.id = None; }
+            "random" => { rumor.id = Some(EventId::from_slice(&rand::random::<[u8; 32]>()).unwrap()); preset_name = format!("{fresh}r"); }
+            x if x.starts_with("other:") => {
+                let target = &x[6..];
+                if let Some((id, _)) = self.msgs.iter().find(|(_, n)| n.as_str() == target) {
+                    rumor.id = Some(*id);
+                    preset_name = target.to_string();
+                }
+            }
+            _ => {}
+        }
+        let cl = &self.clients[c];
+        let r = catch_unwind(AssertUnwindSafe(|| with_mdk!(cl.store.as_ref().unwrap(), m => m.create_message(&gid, rumor.clone()))));
+        self.clear_override();
+        let (res, ename) = match r {
+            Err(_) => ("Panic", None),
+            Ok(Err(e)) => { crate::logcap::push(format!("ERRVAL {e} || {e:?}")); ("Err", None) }
+            Ok(Ok(ev)) => {
+                self.msgs.entry(true_id).or_insert(fresh.clone());
+                if let Some(pid) = rumor.id { if idclass == "random" { self.msgs.entry(pid).or_insert(format!("{fresh}r")); } }
+                let n = self.register_event(ev, "app", g, c, &parent, ts, 0, Some(fresh.clone()));
+                ("Ok", Some(n))
+            }
+        };
+        let post = self.project(c, g);
+        json!({"op":"Forge","c":c,"g":g,"ts":ts,"rank":0,"now":msg_pa(&post, &fresh),"mts":rumor_ts,"res":res,"e":ename.unwrap_or_default(),
+               "m":fresh,"claimed":claimed,"content":content,"idr":id_rank(&true_id),"idclass":idclass,"preset":preset_name,
+               "parent":chain_json(&parent),"post":post})
+    }
+
+    /// Wrap a serialized MLS message exactly like mdk's build_message_event (NIP-44 under the exporter secret of the
+    /// client's current epoch, ephemeral signer, h tag = nostr id in force at that client).
+    fn wrap_raw(&self, c: &str, g: &str, payload: Vec<u8>, ts: u64, rank: u64) -> Option<Event> {
+        use mdk_storage_traits::groups::GroupStorage as _;
+        use nostr::nips::nip44;
+        let gid = self.gid(g);
+        let cl = &self.clients[c];
+        let st = cl.store.as_ref().unwrap();
+        let rec = with_mdk!(st, m => m.get_group(&gid)).ok().flatten()?;
+        let mg = with_mdk!(st, m => m.load_mls_group(&gid)).ok().flatten()?;
+        let _ = mg;
+        let sec = with_mdk!(st, m => m.provider.storage().get_group_exporter_secret(&gid, rec.epoch)).ok().flatten()?;
+        let k = Keys::new(nostr::SecretKey::from_slice(sec.secret.as_ref()).ok()?);
+        let content = nip44::encrypt(k.secret_key(), &k.public_key, payload, nip44::Version::default()).ok()?;
+        let lead = if rank == 0 { None } else { Some((rank.min(15) * 16) as u8) };
+        loop {
+            let ek = Keys::generate();
+            let ev = EventBuilder::new(Kind::MlsGroupMessage, content.clone())
+                .tag(nostr::Tag::custom(nostr::TagKind::h(), [hex::encode(rec.nostr_group_id)]))
+                .custom_created_at(nostr::Timestamp::from_secs(self.real_ts(ts)))
+                .sign_with_keys(&ek)
+                .ok()?;
+            if lead.is_none_or(|b| ev.id.as_bytes()[0] == b) { return Some(ev); }
+        }
+    }
+
+    /// A member builds a commit / proposal directly with OpenMLS, bypassing mdk's admin checks.
+    /// kind: "rename" (group-context-extension change), "remove" (arg = [user]), "admins_self" (adds itself to the
+    /// admin list), "prop_remove" (a Remove proposal for arg[0], not committed).
+    pub fn op_raw(&mut self, c: &str, g: &str, kind: &str, arg: &Value, ts: u64, rank: u64) -> Value {
+        use openmls::prelude::*;
+        use openmls_basic_credential::SignatureKeyPair;
+        use tls_codec::Serialize as _;
+        let gid = self.gid(g);
+        let parent = self.chain_of(c, g, None);
+        let fail = |why: &str| json!({"op":"Raw","c":c,"g":g,"kind":kind,"arg":arg,"res":"Err","why":why,"e":"","ts":ts,"rank":rank,"now":0});
+        let target_pk: Option<PublicKey> = arg.as_array().and_then(|a| a.first()).and_then(|x| x.as_str()).map(|n| self.clients[n].pk());
+        // the wrapper needs the stored exporter secret of the current epoch: check before touching the MLS group
+        {
+            use mdk_storage_traits::groups::GroupStorage as _;
+            let cl = &self.clients[c];
+            let st = cl.store.as_ref().unwrap();
+            let ok = with_mdk!(st, m => m.get_group(&gid)).ok().flatten()
+                .and_then(|rec| with_mdk!(st, m => m.provider.storage().get_group_exporter_secret(&gid, rec.epoch)).ok().flatten()).is_some();
+            if !ok { return fail("no stored exporter secret yet"); }
+        }
+        let cl = &self.clients[c];
+        let st = cl.store.as_ref().unwrap();
+        let own_pk = cl.pk();
+        let payload: Result<Vec<u8>, String> = with_mdk!(st, m => (|| -> Result<Vec<u8>, String> {
+            let mut mg = m.load_mls_group(&gid).map_err(|e| e.to_string())?.ok_or("no group")?;
+            if mg.pending_commit().is_some() { return Err("pending commit".into()); }
+            let own_leaf = mg.own_leaf().ok_or("no leaf")?;
+            let signer = SignatureKeyPair::read(m.provider.storage(), own_leaf.signature_key().as_slice(), mg.ciphersuite().signature_algorithm()).ok_or("no signer")?;
+            let leaf_of = |mg: &MlsGroup, pk: &PublicKey| -> Option<LeafNodeIndex> {
+                mg.members().find(|mb| BasicCredential::try_from(mb.credential.clone()).ok().and_then(|bc| PublicKey::from_slice(bc.identity()).ok()) == Some(*pk)).map(|mb| mb.index)
+            };
+            let out = match kind {
+                "remove" => {
+                    let idx = leaf_of(&mg, &target_pk.ok_or("no target")?).ok_or("target not member")?;
+                    mg.remove_members(&m.provider, &signer, &[idx]).map_err(|e| e.to_string())?.0
+                }
+                "prop_remove" => {
+                    let idx = leaf_of(&mg, &target_pk.ok_or("no target")?).ok_or("target not member")?;
+                    mg.propose_remove_member(&m.provider, &signer, idx).map_err(|e| e.to_string())?.0
+                }
+                "rename" | "admins_self" => {
+                    let mut gd = NostrGroupDataExtension::from_group(&mg).map_err(|e| e.to_string())?;
+                    if kind == "rename" { gd.set_name(arg.as_str().unwrap_or("rawname").to_string()); } else { gd.add_admin(own_pk); }
+                    let raw = RawGroupData {
+                        version: gd.version, nostr_group_id: gd.nostr_group_id, name: gd.name.as_bytes().to_vec(),
+                        description: gd.description.as_bytes().to_vec(),
+                        admin_pubkeys: gd.admins.iter().map(|p| *p.as_bytes()).collect(),
+                        relays: gd.relays.iter().map(|u| u.to_string().into_bytes()).collect(),
+                        image_hash: gd.image_hash.map(|h| h.to_vec()).unwrap_or_default(),
+                        image_key: gd.image_key.map(|h| h.to_vec()).unwrap_or_default(),
+                        image_nonce: gd.image_nonce.map(|h| h.to_vec()).unwrap_or_default(),
+                        image_upload_key: gd.image_upload_key.map(|h| h.to_vec()).unwrap_or_default(),
+                    };
+                    let bytes = raw.tls_serialize_detached().map_err(|e| e.to_string())?;
+                    let ext = Extension::Unknown(gd.extension_type(), UnknownExtension(bytes));
+                    let mut exts = mg.extensions().clone();
+                    exts.add_or_replace(ext).map_err(|e| e.to_string())?;
+                    mg.update_group_context_extensions(&m.provider, exts, &signer).map_err(|e| e.to_string())?.0
+                }
+                _ => return Err("unknown raw kind".into()),
+            };
+            out.tls_serialize_detached().map_err(|e| e.to_string())
+        })());
+        let payload = match payload { Ok(p) => p, Err(e) => return fail(&e) };
+        let Some(ev) = self.wrap_raw(c, g, payload, ts, rank) else { return fail("wrap") };
+        let ekind = if kind == "prop_remove" { "prop" } else { "commit" };
+        let name = self.register_event(ev, ekind, g, c, &parent, ts, rank, None);
+        if ekind == "commit" { self.pending_name.insert((c.to_string(), g.to_string()), name.clone()); }
+        json!({"op":"Raw","c":c,"g":g,"kind":kind,"arg":arg,"res":"Ok","e":name,"ts":ts,"rank":rank,"now":0,
+               "parent":chain_json(&parent),"post":self.project(c,g)})
     }
 
     pub fn op_restart(&mut self, c: &str) -> Value {
